@@ -9,7 +9,7 @@ from . import sorts as S
 from .sorts import Node, Ty, I, B, R
 from .symex import (Unsupported, PathAbort, PyRaise, ExcVal, ExcClass, Obj, ClassRef, ModuleRef,
                     FuncVal, Builtin, ContentView, PayloadView, ArgsView, QVars, ZSetTuple,
-                    SetVal, DictVal, Opaque, FloatVal, Frame,
+                    SetVal, DictVal, Opaque, FloatVal, Frame, SeqList, PrefList,
                     is_z3, is_node, is_ty, is_sym_int, is_sym_bool, is_sym_real, is_sym_str,
                     is_zset, to_int, to_real, to_bool, to_str, is_numeric, is_boolish,
                     is_realish, is_intish, is_strish, concrete, z3const)
@@ -194,7 +194,7 @@ def pykind(world, v):
         return "NoneType"
     if isinstance(v, tuple):
         return "tuple"
-    if isinstance(v, list):
+    if isinstance(v, (list, SeqList)):
         return "list"
     if isinstance(v, (dict, DictVal)):
         return "dict"
@@ -305,6 +305,14 @@ def binop(world, ex, opname, a, b):
             return a * b
         return _repeat_str(world, ex, a, b)
     # sequences
+    if isinstance(a, SeqList) and opname == "+":
+        if isinstance(b, SeqList):
+            return SeqList(z3.Concat(a.expr, b.expr))
+        items = iterate(world, ex, b)
+        e = a.expr
+        for x in items:
+            e = z3.Concat(e, z3.Unit(x))
+        return SeqList(e)
     if isinstance(a, (list, tuple, ArgsView, QVars)) and opname == "+":
         la, lb = iterate(world, ex, a), iterate(world, ex, b)
         return type(a)(la + lb) if isinstance(a, (list, tuple)) else tuple(la + lb)
@@ -562,6 +570,15 @@ def _eq(world, ex, a, b):
         if isinstance(o, (SetVal, set, frozenset)):
             return z == set_to_z3(world, ex, o, z.sort().domain())
         return False
+    if isinstance(a, SeqList) or isinstance(b, SeqList):
+        if isinstance(a, SeqList) and isinstance(b, SeqList):
+            return a.expr == b.expr
+        sl, o = (a, b) if isinstance(a, SeqList) else (b, a)
+        if isinstance(o, list):
+            if not o:
+                return z3.Length(sl.expr) == 0
+            return sl.expr == (z3.Concat([z3.Unit(x) for x in o]) if len(o) > 1 else z3.Unit(o[0]))
+        return False
     if isinstance(a, (tuple, list)) and isinstance(b, (tuple, list)):
         if type(a) != type(b):
             return False
@@ -748,6 +765,10 @@ def length(world, ex, v):
         return len(v)
     if isinstance(v, BitStr):
         return len(v.chars)
+    if isinstance(v, SeqList):
+        return z3.Length(v.expr)
+    if isinstance(v, PrefList):
+        return v.prefix_len + len(v.items)
     if isinstance(v, SetVal) or isinstance(v, DictVal):
         return len(v.items)
     if isinstance(v, ArgsView):
@@ -810,6 +831,9 @@ def iterate(world, ex, v):
         return list(v)
     if isinstance(v, BitStr):
         return [BitStr([c]) for c in v.chars]
+    if isinstance(v, SeqList):
+        n = concretize_int(world, ex, z3.Length(v.expr), 0, 4, "list-len-bound")
+        return [v.expr[i] for i in range(n)]
     if isinstance(v, range):
         return list(v)
     if isinstance(v, Generator):
@@ -942,6 +966,40 @@ def getitem(world, ex, o, k):
             if ex.decide(_eq(world, ex, k, kk)):
                 return vv
         raise PyRaise(ExcVal("KeyError", (k,)))
+    if isinstance(o, PrefList):
+        if isinstance(k, int) and k < 0:
+            if -k <= len(o.items):
+                return o.items[k]
+            if is_z3(o.prefix_len) or o.prefix_len > 0:
+                ex.notes.append("prefix-depth-bound")
+                raise PathAbort("prefix-depth-bound")
+            raise PyRaise(ExcVal("IndexError"))
+        if isinstance(k, slice) and isinstance(k.start, int) and k.start < 0 and k.stop is None and k.step is None \
+                and -k.start <= len(o.items):
+            return list(o.items[k.start:])
+        if isinstance(k, int) and k >= 0 and not is_z3(o.prefix_len) and o.prefix_len == 0:
+            if k < len(o.items):
+                return o.items[k]
+            raise PyRaise(ExcVal("IndexError"))
+        if isinstance(k, int) and k >= 0:
+            # an element of the untouched older part: an arbitrary value
+            return ex.fresh("older_item", o.items[0].sort() if o.items else I)
+        raise Unsupported("subscript %r of a prefix list" % (k,))
+    if isinstance(o, SeqList):
+        n = z3.Length(o.expr)
+        if isinstance(k, slice):
+            if k.step is not None and k.step != 1:
+                raise Unsupported("stepped slice of a symbolic list")
+            lo = to_int(k.start) if k.start is not None else z3.IntVal(0)
+            hi = to_int(k.stop) if k.stop is not None else n
+            lo = z3.If(lo < 0, z3.If(lo + n < 0, z3.IntVal(0), lo + n), z3.If(lo > n, n, lo))
+            hi = z3.If(hi < 0, z3.If(hi + n < 0, z3.IntVal(0), hi + n), z3.If(hi > n, n, hi))
+            return SeqList(z3.Extract(o.expr, lo, z3.If(hi > lo, hi - lo, z3.IntVal(0))))
+        i = to_int(k)
+        j = z3.If(i < 0, i + n, i)
+        if not ex.decide(z3.And(j >= 0, j < n)):
+            raise PyRaise(ExcVal("IndexError"))
+        return o.expr[j]
     if isinstance(o, BitStr):
         if isinstance(k, slice):
             if not all(x is None or isinstance(x, int) for x in (k.start, k.stop, k.step)):
@@ -993,6 +1051,17 @@ def setitem(world, ex, o, k, v):
 
 
 def delitem(world, ex, o, k):
+    if isinstance(o, PrefList):
+        if isinstance(k, slice) and k.stop is None and k.step is None and isinstance(k.start, int):
+            if k.start < 0 and -k.start <= len(o.items):
+                del o.items[k.start:]
+                return
+            if k.start == 0:
+                # del l[0:] empties the list, prefix included
+                o.items[:] = []
+                o.prefix_len = 0
+                return
+        raise Unsupported("del on a prefix list")
     if isinstance(o, DictVal):
         for i, kv in enumerate(o.items):
             if ex.decide(_eq(world, ex, k, kv[0])):
